@@ -1110,16 +1110,16 @@ func runC12(p params) error {
 			}
 		}
 	}
-	// (5) corpus: close / shutdown orders, ignored-record limit, the findings' shapes
+	// (5) corpus: close / shutdown orders, ignored-record limit, the shapes of the findings (fixed ones included: a regression shows up as a violation)
 	corpus := [][]c12Call{
 		{op("handshake"), wr(5), op("closewrite"), wr(5), op("closewrite"), arr(app(8), al(1, 0)), rd(100), rd(100), op("close"), op("close"), rd(1), wr(1), op("handshake"), op("closewrite")},
 		{op("close"), op("close"), op("handshake"), rd(4), wr(4), op("closewrite")},
 		{op("closewrite"), op("handshake"), op("closewrite"), op("closewrite"), wr(1), op("end"), rd(9), rd(9), op("close")},
 		{op("handshake"), op("gone"), wr(3), wr(3), rd(5), op("closewrite"), op("close"), op("close")},
 		{op("handshake"), arr(app(10)), op("gone"), rd(4), op("closewrite"), rd(100), rd(100), wr(1), op("close")},
-		{op("handshake"), arr(app(10), al(2, 40), app(5)), op("end"), rd(100), rd(100), wr(7), rd(100)},                          // K10
-		{op("handshake"), arr(app(10)), {Op: "end", T: "app", N: 3}, rd(100), rd(100), wr(7), rd(100)},                           // K10 (truncation)
-		{op("handshake"), arr(app(10), al(1, 90), c12Ev{K: "hs"}, app(5)), op("end"), rd(100), rd(100), rd(100), rd(100), wr(3)}, // K11
+		{op("handshake"), arr(app(10), al(2, 40), app(5)), op("end"), rd(100), rd(100), wr(7), rd(100)},                          // former K10 (fixed 46481b8): fatal alert received, then Write
+		{op("handshake"), arr(app(10)), {Op: "end", T: "app", N: 3}, rd(100), rd(100), wr(7), rd(100)},                           // former K10: truncated transport, then Write
+		{op("handshake"), arr(app(10), al(1, 90), c12Ev{K: "hs"}, app(5)), op("end"), rd(100), rd(100), rd(100), rd(100), wr(3)}, // former K11 (fixed 46481b8): no_renegotiation with data buffered
 		{op("handshake"), arr(app(10), c12Ev{K: "hs"}, app(5)), op("end"), rd(100), rd(100), rd(100), wr(3)},
 		{op("handshake"), arr(app(10), al(1, 90), c12Ev{K: "hs"}), op("end"), rd(100), rd(100), rd(100), wr(3)},
 		{op("handshake"), arr(app(4), c12Ev{K: "ccs"}, app(3)), rd(10), rd(10), rd(10), wr(1)},
@@ -1128,6 +1128,7 @@ func runC12(p params) error {
 		{op("gone"), op("handshake"), rd(3), wr(3), op("close")},
 		{{Op: "end", T: "app", N: 2}, rd(4), op("handshake"), wr(4)},
 		{op("end"), wr(4), op("handshake"), rd(4), op("close"), op("handshake")},
+		{op("handshake"), arr(app(10)), op("gone"), wr(3), rd(100), rd(100), wr(1), op("close")}, // former K10: failed transport write, then Read of data that had arrived
 	}
 	for i, calls := range corpus {
 		for _, target := range targets {
